@@ -69,16 +69,17 @@ func runBackend(thorough bool, budget time.Duration, only string) *backendResult
 	cc := newCaseCollector()
 	phase("tables", func() { tableChecks(cc) })
 	phase("group-cases", func() { groupCases(thorough, cc) })
+	var patternFindings []finding
 	phase("field-patterns", func() {
-		ev, cl := fieldPatternFamily(report)
+		ev, cl := fieldPatternFamily(func(f finding) { patternFindings = append(patternFindings, f) })
 		res.Evals["field-patterns"] = ev
 		for k, v := range cl {
 			res.Classes["field-patterns|"+k] = v
 		}
 	})
-	fd, gd := 3, 4
+	fd, gd := fieldDepthQuick, 4
 	if thorough {
-		fd, gd = 4, 5
+		fd, gd = fieldDepthThorough, 5
 	}
 	phase("field-machine", func() {
 		st := newFieldMachine().explorer().run(fd, deadline, report)
@@ -90,6 +91,8 @@ func runBackend(thorough bool, budget time.Duration, only string) *backendResult
 		res.Machines = append(res.Machines, st)
 		res.Capped = res.Capped || st.Capped
 	})
+	// a machine history (exactly replayable) is preferred over the one-step family for the same key
+	res.Findings = append(res.Findings, patternFindings...)
 	for k, v := range cc.evals {
 		res.Evals[k] = v
 	}
@@ -401,3 +404,8 @@ func replay() {
 }
 
 var _ = big.NewInt
+
+const (
+	fieldDepthQuick    = 4
+	fieldDepthThorough = 5
+)
